@@ -260,6 +260,47 @@ func c20(r *core.Run) {
 			}
 		}
 	}
+	// ---- I1 (continued): no insert through a truncated prefix ------------------
+	// append(c[:k], x...) writes into c's own backing array; unless x is c's own tail (the delete
+	// idiom, an overlapping forward copy) every later read of c[k:] sees the new elements instead
+	// of the old ones.
+	for _, mp := range mwPkgs {
+		for _, fn := range p.FuncsOfPkg(mp.rel) {
+			for _, c := range core.Calls(fn) {
+				call, ok := c.(*ssa.Call)
+				if !ok || core.CalleeName(call) != "builtin:append" || len(call.Call.Args) < 2 {
+					continue
+				}
+				pre, ok := call.Call.Args[0].(*ssa.Slice)
+				if !ok || pre.High == nil {
+					continue
+				}
+				base := pre.X
+				sameBase := func(v ssa.Value) bool { return v == base || sameRoot(v, base) }
+				// delete idiom: the appended data is a tail of the same slice
+				if tl, ok := call.Call.Args[1].(*ssa.Slice); ok && tl.Low != nil && sameBase(tl.X) {
+					r.OKTrivial("I1", core.FuncName(fn), "prefix-append-is-delete-idiom", p.InstrPos(call), "append(c[:i], c[j:]...) moves the slice's own tail")
+					continue
+				}
+				// any later read of the old tail?
+				later := ""
+				for _, b := range fn.Blocks {
+					for _, in := range b.Instrs {
+						sl, ok := in.(*ssa.Slice)
+						if !ok || sl.Low == nil || !sameBase(sl.X) || sl.Referrers() == nil {
+							continue
+						}
+						for _, rf := range *sl.Referrers() {
+							if rf != ssa.Instruction(call) && (core.Reaches(call, rf) || rf.Block() == call.Block()) {
+								later = p.InstrPos(rf)
+							}
+						}
+					}
+				}
+				r.Check(later == "", "I1", core.FuncName(fn), "no-insert-through-truncated-prefix", p.InstrPos(call), "no later read of the overwritten tail", "append(c[:k], new...) overwrites c[k] in place and the old tail c[k:] is read afterwards (at "+later+"): the element that was at k is lost and the new one is stored twice, so the stored collection is not the fold of the applied add events")
+			}
+		}
+	}
 	// ---- D1 --------------------------------------------------------------
 	for _, mp := range mwPkgs {
 		if m := methodNamed(p, mp.rel, mp.typ, "applyChange"); m != nil {
